@@ -583,7 +583,7 @@ def coverage_extra(tier, seed, results):
 # ---- call-order plane (executed by mc/core.py in fresh interpreters, see mc/props/_hist_common.py): the result of
 # a call must not depend on which other calls (other dtype / method / size / options) were made before it
 _HIST_LABELS = [('float32', 'rk4'), ('float64', 'rk4'), ('float64', 'rk45'), ('float32', 'rk45'), ('float64', 'rk38')]
-HISTORY = {"labels": ["/".join(str(x) for x in c) for c in _HIST_LABELS], "tol": [0.001, 1e-11, 1e-07, 0.01, 1e-11],
+HISTORY = {"labels": ["/".join(str(x) for x in c) for c in _HIST_LABELS], "tol": [0.001, 1e-11, 1e-10, 0.01, 1e-11],
            "depth": {"quick": 2, "thorough": 3},
            "prelude": r'''import torch, xitorch
 from xitorch.integrate import solve_ivp
